@@ -102,7 +102,7 @@ func discharge(obs []*Obligation, scratch string, tier string, seed int) {
 					}
 				}
 			}
-			if ob.Result == ob.Expect {
+			if ob.Result == ob.Expect || ob.Expect == "sat-any" {
 				os.Remove(file)
 			}
 		}(idx, ob)
